@@ -49,7 +49,8 @@ def generate(rng, n, tier, stats):
         elif fam == 'method':
             if kind == 'O' or not news: continue
             news = [x + rng.choice([0, 0.25, -0.25, 0.5]) for x in news]; nk = 'f'
-            ops = [['reindex', news, nk, r, None, False, rng.choice(['left', 'right']), 'array']]; ins = [a]
+            # (raise_error=True refuses a missing label whatever the method)
+            ops = [['reindex', news, nk, r, None, rng.random() < 0.3, rng.choice(['left', 'right']), 'array']]; ins = [a]
         elif fam == 'axisobj':
             ops = [['reindex_axisobj', {'name': a['dims'][i], 'labels': news, 'kind': nk}]]; ins = [a]
         else:
@@ -102,7 +103,8 @@ def oracle(case, res):
                 c = bisect.bisect_left(srt, v) if method == 'left' else bisect.bisect_right(srt, v)
                 src.append(order[min(c, len(labs) - 1)])
         except TypeError: return None
-        if raise_error and any(labs[sj] != v for sj, v in zip(src, news)): return None
+        if raise_error and any(labs[sj] != v for sj, v in zip(src, news)):
+            return 'raise_error=True with method=%s and a new label that is not on the axis did not raise IndexError' % method
         rr = res[1]['v']
         if not labs_eq(rr['axes'][i]['labels'], news): return 'method=%s: axis is %r, expected exactly %r' % (method, rr['axes'][i]['labels'], news)
         arr = mk_array(a)
